@@ -86,6 +86,18 @@ def _endpoints(S: Term, which: int) -> Term:
         core = core[2][0]
     if core[0] == "setof":
         core = core[1]
+    if core[0] == "accum":
+        from .setalg import accum_as_comp
+        c = accum_as_comp(core)
+        if c is not None:
+            core = c
+        elif core[1] == "concat" and len(core) > 5 and core[5] == ("const", False) and core[3][0] == "listlit" and len(core[3][1]) == 1 \
+                and core[3][1][0][0] == "tuplelit" and len(core[3][1][0][1]) == 2:
+            # edges appended to an existing list: the endpoints of the old edges and those of the new ones
+            old = _endpoints(core[2], which)
+            return ("union", old, ("comp", "set", core[3][1][0][1][which], tuple(core[4])))
+    if core[0] == "concat" and len(core) == 3:
+        return ("union", _endpoints(core[1], which), _endpoints(core[2], which))
     if core[0] == "comp" and core[1] in ("list", "gen", "set") and is_term(core[2]) and core[2][0] == "tuplelit" and len(core[2][1]) == 2:
         return ("comp", "set", core[2][1][which], core[3])
     if core[0] in ("listlit", "tuplelit", "setlit") and core[1] and all(x[0] == "tuplelit" and len(x[1]) == 2 for x in core[1]):
@@ -245,6 +257,13 @@ def denote(t: Term) -> Term | None:
             N = _union(N, _lift(("setof", S), gens))
         elif name in ("add_edge", "add_directed_edge", "add_undirected_edge"):
             u, v = _arg(e, 0, "u_of_edge", "u"), _arg(e, 1, "v_of_edge", "v")
+            if v is None and u is not None and u[0] == "star" and len(e[2]) == 1:
+                # add_edge(*pair)
+                pr = u[1]
+                if pr[0] == "tuplelit" and len(pr[1]) == 2:
+                    u, v = pr[1]
+                else:
+                    u, v = ("index", pr, ("const", 0)), ("index", pr, ("const", 1))
             if u is None or v is None:
                 return None
             N = _union(N, _union(_lift(("setlit", (u,)), gens), _lift(("setlit", (v,)), gens)))
@@ -277,25 +296,30 @@ def denote(t: Term) -> Term | None:
     return ("nxgraph", N, E, attrs)
 
 
-def post(v: Any) -> Any:
+def post_effects_only(v: Any) -> Any:
+    """like post(), but a bare from_edges(...) call stays a call (its arguments are then compared one by one)"""
+    return post(v, False)
+
+
+def post(v: Any, bare_calls: bool = True) -> Any:
     """Replace every graph-effect chain inside a value by its denotation (outermost chains first)."""
     if not isinstance(v, tuple):
         return v
     if is_term(v):
         d = denote(v)
         if d is not None:
-            return (d[0],) + tuple(post(x) for x in d[1:])
-        w = (v[0],) + tuple(post(x) for x in v[1:])
+            return (d[0],) + tuple(post(x, bare_calls) for x in d[1:])
+        w = (v[0],) + tuple(post(x, bare_calls) for x in v[1:])
         ind = induced(w)
         if ind is not None:
             return ind
-        fe = _from_edges_args(w)
+        fe = _from_edges_args(w) if bare_calls else None
         if fe is not None and (fe[1] is not None or fe[2] is not None):
             g0 = _same_graph_parts(fe)
             if g0 is not None:
                 return g0  # from_edges(g.nodes(), g.directed.edges(), g.undirected.edges()) is (a copy of) g
             d = denote(("mut", w, (("call", "add_nodes_from", (("listlit", ()),), ()),)))
             if d is not None:
-                return (d[0],) + tuple(post(x) for x in d[1:])
+                return (d[0],) + tuple(post(x, bare_calls) for x in d[1:])
         return w
-    return tuple(post(x) for x in v)
+    return tuple(post(x, bare_calls) for x in v)
